@@ -1132,7 +1132,15 @@ class Interp:
     def call(self, e: ast.Call):
         f = e.func
         name = A.call_attr(e)
-        if name in self.externals and callable(self.externals[name]):
+        native = False
+        if name in self.externals and isinstance(f, ast.Attribute) and not (isinstance(f.value, ast.Name) and f.value.id in MODULE_NAMES):
+            # x.add(...) on a python set / list / dict / str is the container's own method, not the array library's add()
+            try:
+                rv_ = self.eval(f.value)
+                native = isinstance(rv_, (set, dict, str, tuple)) and hasattr(type(rv_), name) or (type(rv_) is list and hasattr(list, name))
+            except Undecided:
+                native = False
+        if name in self.externals and callable(self.externals[name]) and not native:
             xa = self.eval_args(e.args)
             xk = self.eval_kwargs(e.keywords)
             try:
